@@ -119,7 +119,7 @@ structure Run where
 
 /-- move what the model emitted since the last call into the trace, stamped with virtual time -/
 def collectTag (tag : String) (r : Run) : Run :=
-  if r.k.out.isEmpty then r
+  if r.k.out.isEmpty then (if tag == "R" then { r with out := r.out.push s!"@{r.vt}R -" } else r)
   else { r with out := r.out.push s!"@{r.vt}{tag} {" ".intercalate (r.k.out.map fmtOs)}", k := { r.k with out := [] } }
 
 def collect (r : Run) : Run := collectTag "" r
